@@ -617,6 +617,35 @@ def _decorate(chart, how):
         pass
 
 
+def _plot_reading(plot):
+    out = {"series": [], "cats": None}
+    for srs in plot.series:
+        try:
+            vals = list(srs.values)
+        except Exception as e:
+            vals = "!" + type(e).__name__
+        out["series"].append([srs.name, vals])
+    try:
+        out["cats"] = [str(c) for c in plot.categories]
+    except Exception as e:
+        out["cats"] = "!" + type(e).__name__
+    return out
+
+
+def _check_held_plot(chart, held_plot, report):
+    """The first plot survives every replace_data that supplies >= 1 series; a proxy for it obtained before
+    the call must report the new data exactly like one obtained after the call."""
+    try:
+        fresh = _plot_reading(chart.plots[0])
+        held = _plot_reading(held_plot)
+    except Exception:
+        return
+    if fresh != held:
+        report("C07:held-plot-stale:replace",
+               "a plot object obtained before replace_data reports %s, chart.plots[0] obtained afterwards reports %s"
+               % (str(held)[:200], str(fresh)[:200]))
+
+
 def _replace(chart, before_root, desc, report):
     """-> True when the chart was rewritten."""
     n_old = len(x_all_sers(before_root))
@@ -701,8 +730,17 @@ def execute(case, report):
             _decorate(chart, case["decorate"])
             root = etree.fromstring(chart.part.blob)
         n_old = len(x_all_sers(root))
+        # a plot proxy obtained BEFORE the replacement (user code holding `plot = chart.plots[0]`)
+        held_plot = None
+        if n_old:
+            try:
+                held_plot = chart.plots[0]
+            except Exception:
+                held_plot = None
         if not _replace(chart, root, desc, report):
             break
+        if held_plot is not None:
+            _check_held_plot(chart, held_plot, report)
         before = root
         root, recs, idx_ok = _observe(chart, desc, baseline, idx_ok, "replace", report, requested_type=ct)
         d = frame_diff(before, root, len(desc["series"]))
